@@ -139,6 +139,9 @@ func collectDeclDependencies(d Decl) []string {
 		}
 	case *AliasDecl:
 		collectTypeRefs(d.Type, add)
+	case *ConstAssertDecl:
+		// evaluated after the constants it names, wherever they are declared
+		collectExprDeps(d.Condition, nil, add)
 	}
 	return refs
 }
